@@ -18,7 +18,8 @@ class C14:
     rule = ("a class forest of 2-6 classes created for the case (dataclass and hand-written __init__, decorated subclasses, UNDECORATED "
             "subclasses with and without their own __init__, up to 4 levels deep) and a history of 4-14 (thorough: up to 30) steps: concrete "
             "construction of any class in positional / keyword / default style, symbolic construction (plain, keyword, From(domain), "
-            "rule mode), rule inference creating 0-3 instances, registry clearing, and no-domain queries of any class; every query result "
+            "rule mode), rule inference creating 0-3 instances, registry clearing, and no-domain queries of any class - complete ones and ones abandoned after "
+            "0-2 results or by `the` raising, with the variable alone or under a condition every instance satisfies; every query result "
             "is compared BY IDENTITY and in order with the registry model, and as a multiset with the harness's own log of constructed "
             "objects; after every step the number of initialisations run so far is compared too; non-trivial = some query returns some "
             "but not all of the objects constructed so far")
@@ -60,9 +61,9 @@ class C14:
             elif r < 0.68:
                 ops.append(['clear'])
             elif r < 0.8:
-                ops.append(['qtake', c, rng.randint(0, 2), rng.choice(['an', 'an', 'the'])])
+                ops.append(['qtake', c, rng.randint(0, 2), rng.choice(['an', 'an', 'the']), rng.random() < 0.5])
             else:
-                ops.append(['query', c])
+                ops.append(['query', c, rng.random() < 0.4])
         # every history ends by querying every root class
         for c in range(ncls):
             if classes[c]['parent'] is None:
@@ -162,6 +163,8 @@ class C14:
         d = collections.Counter()
         for op in case['ops']:
             d['op_' + op[0]] += 1
+            if (op[0] == 'qtake' and len(op) > 4 and op[4]) or (op[0] == 'query' and len(op) > 2 and op[2]):
+                d['queries_under_a_condition_every_instance_satisfies'] += 1
             if op[0] in ('concrete', 'symbolic'):
                 d[op[0] + '_' + op[2]] += 1
         for c in case['classes']:
